@@ -256,6 +256,11 @@ def spell(d, salt, plain=False):
     h //= 4
     if sign == '+' and h % 5 == 0:
         sign = ''
+    h //= 5
+    if paren and h % 3 == 0:
+        # blanks inside the argument list are ignored like everywhere else in a directive
+        rest = rest.replace('==', ' == ').replace('!=', ' != ').replace(':', ': ', 1 if h % 2 else 0).replace(')', ' )')
+        rest = ' ' + rest
     return pre + sign + name + paren + rest
 
 
@@ -423,6 +428,8 @@ def _check_history(ctx, events, defaults, origin, base):
         ctx.cell('spelling:lower-case-name')
     if _re.search(r'doctest: *[A-Za-z]', doc):
         ctx.cell('spelling:no-sign')
+    if _re.search(r'\( [^)]* (==|!=) [^)]*\)', doc):
+        ctx.cell('spelling:blanks-inside-arguments')
     if base is not None and any(e[0] == 'stmt' and e[1] == 'world' and i_ran for e, i_ran in world_events(events, exp_out)):
         ctx.cell('world-changed-inside-the-doctest')
     if ctx.shard == 0 and origin == 'random':
@@ -481,7 +488,7 @@ def required_cells(tier):
              'defaults:+REQUIRES(%s)' % UNMET_A, 'defaults:+REQUIRES(module:os)', 'f9-probe-behaves',
              'cond:flag', 'cond:env:XV_E', 'cond:tag', 'world-changed-inside-the-doctest', 'defaults:+REQUIRES(--xvf)',
              'defaults:+REQUIRES(env:XV_E==1)', 'defaults:+REQUIRES(cpython, linux)', 'spelling:doctest-prefix', 'spelling:two-directives-in-one-comment', 'spelling:lower-case-name',
-             'spelling:no-sign']
+             'spelling:no-sign', 'spelling:blanks-inside-arguments']
     cells += ['form:' + f for f in FORMS] + ['blocktail:' + t for t in BLOCK_TAILS]
     return cells
 
